@@ -37,7 +37,7 @@ def retryOK (ti : Option TInfo) (top : Rec) (old : String) : Bool :=
   let e := match ti with | some t => t.execRetries | none => 0
   let s := match ti with | some t => t.subRetries | none => 0
   ["preparing", "submitted", "running"].contains old &&
-    ((top.m == "failed" && e > 0) || (top.m == "submission failed" && s > 0))
+    ((isFailMsg top.m && e > 0) || (top.m == "submission failed" && s > 0))
 
 def describe (idx : Nat) (t : Tr) : String := s!"obs {idx}: {t.p}/{t.n} {t.old} -> {t.new}"
 
@@ -61,7 +61,7 @@ def judgeTr (ts : List TInfo) (idx : Nat) (recs : List Rec) (t : Tr) : Option St
           if (top.fl == "polled" || top.fl == "internal") && top.m != "submitted" && behind ms top.b.st then
             some s!"believed-reversal: {what}"
           else if top.fl == "received" && top.sn == top.b.sn &&
-              ((top.b.st == "submit-failed" && ["started", "succeeded", "failed"].contains top.m) ||
+              ((top.b.st == "submit-failed" && ["started", "succeeded", "failed"].contains (baseMsg top.m)) ||
                (top.b.st == "failed" && top.m == "succeeded")) then
             some s!"final-not-terminal: {what}"
           else some what
